@@ -19,6 +19,7 @@ import (
 	"path/filepath"
 	"sort"
 	"strings"
+	"time"
 
 	"github.com/bufbuild/buf/private/bufpkg/bufmodule"
 	"github.com/bufbuild/buf/private/bufpkg/bufmodule/bufmodulecache"
@@ -93,6 +94,31 @@ func (r *registry) GetModuleDatasForModuleKeys(ctx context.Context, keys []bufmo
 	return datas, nil
 }
 
+// GetCommitsForModuleKeys implements bufmodule.CommitProvider.
+func (r *registry) GetCommitsForModuleKeys(ctx context.Context, keys []bufmodule.ModuleKey) ([]bufmodule.Commit, error) {
+	if len(keys) == 0 {
+		return nil, nil
+	}
+	names := make([]string, len(keys))
+	for i, k := range keys {
+		names[i] = k.FullName().Name()
+	}
+	d := r.m.s.Yield(ctx, "reg.commits", strings.Join(names, ","))
+	if d.Dead {
+		return nil, sched.ErrCrashed
+	}
+	if d.Fault == "registry-err" {
+		r.m.s.Fired(d.Fault)
+		return nil, d.Err("registry")
+	}
+	return r.m.u.Provider.GetCommitsForModuleKeys(ctx, keys)
+}
+
+// GetCommitsForCommitKeys implements bufmodule.CommitProvider.
+func (r *registry) GetCommitsForCommitKeys(ctx context.Context, keys []bufmodule.CommitKey) ([]bufmodule.Commit, error) {
+	return r.m.u.Provider.GetCommitsForCommitKeys(ctx, keys)
+}
+
 // ---- fault policy ----
 
 type swarm struct {
@@ -153,8 +179,13 @@ type csim struct {
 	s     *sched.Sim
 	env   *engine.Env
 	u     *modgen.Universe
-	dir   string // the cache directory
+	root  string // the cache root: modules/ and commits/
+	dir   string // the module cache directory
 	raw   storage.ReadWriteBucket
+	cdir  string // the commit cache directory
+	craw  storage.ReadWriteBucket
+	// taintedCommit[module index]: its commit file was altered but may still parse
+	taintedCommit map[int]bool
 	hooks *simfs.Hooks
 	table *simlock.Table
 	reg   *registry
@@ -191,6 +222,8 @@ func (m *csim) storeOpts() []bufmodulestore.ModuleDataStoreOption {
 type consumed struct {
 	files map[string]string
 	deps  []string
+	// depDigests are the digests of the dependency keys, sorted
+	depDigests []string
 	yaml  string
 	lock  string
 }
@@ -221,8 +254,14 @@ func consume(ctx context.Context, md bufmodule.ModuleData) (*consumed, error) {
 	}
 	for _, d := range deps {
 		out.deps = append(out.deps, d.String())
+		dd, err := d.Digest()
+		if err != nil {
+			return nil, err
+		}
+		out.depDigests = append(out.depDigests, dd.String())
 	}
 	sort.Strings(out.deps)
+	sort.Strings(out.depDigests)
 	y, err := md.V1Beta1OrV1BufYAMLObjectData()
 	if err != nil {
 		return nil, err
@@ -242,6 +281,13 @@ func consume(ctx context.Context, md bufmodule.ModuleData) (*consumed, error) {
 
 // wrong compares consumed content with the reference; "" means equal.
 func (m *csim) wrong(mod *modgen.Module, c *consumed) string {
+	return m.wrongT(mod, c, m.tainted[m.indexOf(mod)])
+}
+
+// wrongT: for an entry whose cached files were tampered with, only what the pinned digest
+// covers is compared (file contents; for b5 the dependency DIGESTS; for b4 the v1 object
+// data) - names and commit ids of dependency keys are stored beside, not under, the digest.
+func (m *csim) wrongT(mod *modgen.Module, c *consumed, tainted bool) string {
 	for _, p := range simfs.SortedKeys(mod.ModuleFiles) {
 		got, ok := c.files[p]
 		if !ok {
@@ -256,8 +302,24 @@ func (m *csim) wrong(mod *modgen.Module, c *consumed) string {
 			return "extra file " + p
 		}
 	}
-	if strings.Join(c.deps, ",") != strings.Join(mod.DepKeys, ",") {
-		return fmt.Sprintf("dependency keys %v, reference %v", c.deps, mod.DepKeys)
+	if !tainted {
+		if strings.Join(c.deps, ",") != strings.Join(mod.DepKeys, ",") {
+			return fmt.Sprintf("dependency keys %v, reference %v", c.deps, mod.DepKeys)
+		}
+	} else if m.u.DigestType == bufmodule.DigestTypeB5 {
+		var want []string
+		for _, d := range m.u.Modules {
+			for _, k := range mod.DepKeys {
+				if d.Key.String() == k {
+					dd, _ := d.Key.Digest()
+					want = append(want, dd.String())
+				}
+			}
+		}
+		sort.Strings(want)
+		if strings.Join(c.depDigests, ",") != strings.Join(want, ",") {
+			return fmt.Sprintf("dependency digests %v, reference %v", c.depDigests, want)
+		}
 	}
 	if m.u.DigestType == bufmodule.DigestTypeB4 {
 		if c.yaml != "buf.yaml:"+string(mod.BufYAML) {
@@ -314,7 +376,7 @@ func (m *csim) indexOf(mod *modgen.Module) int {
 // ---- crash snapshots: every distinct disk state is a crash state ----
 
 func (m *csim) snapshot(op sched.Op) {
-	st, err := simfs.DirState(m.dir)
+	st, err := simfs.DirState(m.root)
 	if err != nil {
 		return
 	}
@@ -327,7 +389,7 @@ func (m *csim) snapshot(op sched.Op) {
 	m.counters["crash_states_checked"]++
 	m.snapSeq++
 	copyDir := filepath.Join(m.env.Scratch, fmt.Sprintf("snap%d", m.snapSeq))
-	if err := simfs.CopyDir(m.dir, copyDir); err != nil {
+	if err := simfs.CopyDir(m.root, copyDir); err != nil {
 		panic(err)
 	}
 	defer os.RemoveAll(copyDir)
@@ -335,9 +397,10 @@ func (m *csim) snapshot(op sched.Op) {
 }
 
 // recover runs O2 and O3 against a directory with fresh, un-instrumented components.
-func (m *csim) recover(dir, when, site string) {
+func (m *csim) recover(root, when, site string) {
 	ctx := context.Background()
-	raw, err := storageos.NewProvider().NewReadWriteBucket(dir)
+	m.recoverCommits(ctx, filepath.Join(root, "commits"), when, site)
+	raw, err := storageos.NewProvider().NewReadWriteBucket(filepath.Join(root, "modules"))
 	if err != nil {
 		panic(err)
 	}
@@ -401,6 +464,100 @@ func (m *csim) recover(dir, when, site string) {
 	}
 }
 
+// noPanic runs f and turns a panic of the code under test into a violation.
+func (m *csim) noPanic(site, what string, f func()) {
+	defer func() {
+		if r := recover(); r != nil {
+			m.violate("no-panic", site, "%s panicked: %v", what, r)
+		}
+	}()
+	f()
+}
+
+// mockTime is the create time bufmoduletesting.OmniProvider gives every commit.
+var mockTime = time.Unix(1672574400, 0)
+
+// checkCommit is O1 for a commit: its lazy accessor fails, or it describes the pinned key.
+func (m *csim) checkCommit(who, site string, key bufmodule.ModuleKey, c bufmodule.Commit) (ok bool, err error) {
+	if c == nil {
+		m.violate("no-wrong-content", site+"|nil-commit", "%s: a nil Commit was returned as found for %s", who, key.FullName().Name())
+		return false, nil
+	}
+	ct, err := c.CreateTime()
+	if err != nil {
+		return false, err
+	}
+	if !ct.Equal(mockTime) {
+		m.violate("no-wrong-content", site, "%s: commit of %s served with create time %v without error", who, key.FullName().Name(), ct)
+		return false, nil
+	}
+	want, _ := key.Digest()
+	got, derr := c.ModuleKey().Digest()
+	if derr != nil {
+		return false, derr
+	}
+	// (the module NAME recorded in the commit file is not compared: the property pins content by digest)
+	if !bufmodule.DigestEqual(want, got) || c.ModuleKey().CommitID() != key.CommitID() {
+		m.violate("no-wrong-content", site, "%s: commit served for %s without error describes another key (%s)", who, key.String(), c.ModuleKey().String())
+		return false, nil
+	}
+	return true, nil
+}
+
+// recoverCommits runs the recovery oracles for the commit cache on a copied directory.
+func (m *csim) recoverCommits(ctx context.Context, dir, when, site string) {
+	if err := os.MkdirAll(dir, 0o755); err != nil {
+		panic(err)
+	}
+	raw, err := storageos.NewProvider().NewReadWriteBucket(dir)
+	if err != nil {
+		panic(err)
+	}
+	store := bufmodulestore.NewCommitStore(slogext.NopLogger, raw)
+	all := make([]int, len(m.u.Modules))
+	for i := range all {
+		all[i] = i
+	}
+	keys := m.u.Keys(all)
+	byCommit := map[string]int{}
+	for i, k := range keys {
+		byCommit[uuidutil.ToDashless(k.CommitID())] = i
+	}
+	found, _, err := store.GetCommitsForModuleKeys(ctx, keys)
+	if err != nil {
+		m.violate("marker-implies-complete", site+"|commit", "%s: commit store get failed: %v", when, err)
+	}
+	for _, c := range found {
+		if c == nil {
+			m.violate("no-wrong-content", site+"|commit|nil-commit", "%s: the commit store returned a nil Commit as found", when)
+			continue
+		}
+		i := byCommit[uuidutil.ToDashless(c.ModuleKey().CommitID())]
+		if _, err := m.checkCommit(when, site+"|commit", keys[i], c); err != nil && !m.taintedCommit[i] {
+			m.violate("marker-implies-complete", site+"|commit", "%s: commit of module %d is cached but unusable: %v", when, i, err)
+		}
+	}
+	provider := bufmodulecache.NewCommitProvider(slogext.NopLogger, m.u.Provider, store)
+	var commits []bufmodule.Commit
+	panicked := true
+	m.noPanic(site+"|commit", when+": providing commits from the cache", func() {
+		commits, err = provider.GetCommitsForModuleKeys(ctx, keys)
+		panicked = false
+	})
+	if panicked {
+		return
+	}
+	if err != nil {
+		m.violate("later-store-repairs", site+"|commit", "%s: a fresh process cannot provide the commits: %v", when, err)
+		return
+	}
+	for i, c := range commits {
+		if _, err := m.checkCommit(when, site+"|commit", keys[i], c); err != nil && !m.taintedCommit[i] {
+			m.violate("later-store-repairs", site+"|commit", "%s: after a fresh provide the commit of module %d is unusable: %v", when, i, err)
+		}
+	}
+}
+
 // ---- simulated processes ----
 
 type action struct {
@@ -412,7 +569,7 @@ func (m *csim) drawScript() []action {
 	n := 1 + m.tp.Draw("nactions", 3)
 	var out []action
 	for i := 0; i < n; i++ {
-		a := action{kind: tape.Pick(m.tp, "akind", []string{"provide", "provide", "get", "put"})}
+		a := action{kind: tape.Pick(m.tp, "akind", []string{"provide", "provide", "get", "put", "commits"})}
 		// non-empty subset of modules, in tape order
 		perm := m.tp.Perm("amods", len(m.u.Modules))
 		k := 1 + m.tp.Draw("anmods", len(m.u.Modules))
@@ -437,6 +594,8 @@ func (m *csim) spawn(script []action, strict bool) *procResult {
 	locker := simlock.NewLocker(m.table, proc)
 	store := bufmodulestore.NewModuleDataStore(slogext.NopLogger, bucket, locker, m.storeOpts()...)
 	provider := bufmodulecache.NewModuleDataProvider(slogext.NopLogger, m.reg, store)
+	cbucket := &simfs.Bucket{S: m.s, U: m.craw, Name: "k", Hooks: m.hooks}
+	commitProvider := bufmodulecache.NewCommitProvider(slogext.NopLogger, m.reg, bufmodulestore.NewCommitStore(slogext.NopLogger, cbucket))
 	m.s.Spawn(proc, func(ctx context.Context) {
 		for ai, a := range script {
 			keys := m.u.Keys(a.mods)
@@ -500,6 +659,44 @@ func (m *csim) spawn(script []action, strict bool) *procResult {
 						}
 					}
 				}
+			case "commits":
+				var commits []bufmodule.Commit
+				var err error
+				panicked := true
+				m.noPanic(site, who, func() {
+					commits, err = commitProvider.GetCommitsForModuleKeys(ctx, keys)
+					panicked = false
+				})
+				if proc.Dead {
+					return
+				}
+				if panicked {
+					continue
+				}
+				if err != nil {
+					res.errs++
+					if strict {
+						m.violate("fault-free-strict", site, "%s failed without any fault: %v", who, err)
+					}
+					continue
+				}
+				if len(commits) != len(keys) {
+					m.violate("no-wrong-content", site, "%s returned %d commits for %d keys", who, len(commits), len(keys))
+					continue
+				}
+				nok := 0
+				for i, c := range commits {
+					ok, cerr := m.checkCommit(who, site, keys[i], c)
+					if proc.Dead {
+						return
+					}
+					if ok {
+						nok++
+					} else if cerr != nil && strict {
+						m.violate("fault-free-strict", site, "%s: commit unusable without any fault: %v", who, cerr)
+					}
+				}
+				m.s.Event("%s commits %v -> ok %d", name, a.mods, nok)
 			case "put":
 				datas, err := m.u.Provider.GetModuleDatasForModuleKeys(ctx, keys)
 				if err != nil {
@@ -547,7 +744,38 @@ func (m *csim) entryPath(mod *modgen.Module) string {
 	return p
 }
 
+func (m *csim) tamperCommit() {
+	idx := m.tp.Draw("tcmod", len(m.u.Modules))
+	mod := m.u.Modules[idx]
+	digest, _ := mod.Key.Digest()
+	file := filepath.Join(m.cdir, digest.Type().String(), mod.Key.FullName().Registry(), uuidutil.ToDashless(mod.CommitID)+".json")
+	data, err := os.ReadFile(file)
+	if err != nil || len(data) == 0 {
+		return
+	}
+	switch m.tp.Draw("tckind", 3) {
+	case 0:
+		pos := m.tp.Draw("tcpos", len(data))
+		data[pos] ^= byte(1 + m.tp.Draw("tcbit", 255))
+		_ = os.WriteFile(file, data, 0o644)
+		m.taintedCommit[idx] = true
+		m.s.Fired("tamper-commit-flip")
+	case 1:
+		_ = os.WriteFile(file, data[:m.tp.Draw("tclen", len(data))], 0o644)
+		m.taintedCommit[idx] = true
+		m.s.Fired("tamper-commit-truncate")
+	default:
+		_ = os.Remove(file)
+		m.s.Fired("tamper-commit-delete")
+	}
+	m.s.Event("tamper commit file of module %d", idx)
+}
+
 func (m *csim) tamper() {
+	if m.tp.Draw("tcommit?", 4) == 3 {
+		m.tamperCommit()
+		return
+	}
 	idx := m.tp.Draw("tmod", len(m.u.Modules))
 	mod := m.u.Modules[idx]
 	entry := m.entryPath(mod)
@@ -655,15 +883,25 @@ func Run(tp *tape.Tape, env *engine.Env) *engine.Outcome {
 	}
 	m.u = u
 	m.tar = tp.Draw("tar", 4) == 3
-	m.dir = filepath.Join(env.Scratch, "cache")
-	if err := os.MkdirAll(m.dir, 0o755); err != nil {
-		panic(err)
+	m.root = filepath.Join(env.Scratch, "cache")
+	m.dir = filepath.Join(m.root, "modules")
+	m.cdir = filepath.Join(m.root, "commits")
+	for _, d := range []string{m.dir, m.cdir} {
+		if err := os.MkdirAll(d, 0o755); err != nil {
+			panic(err)
+		}
 	}
 	raw, err := storageos.NewProvider().NewReadWriteBucket(m.dir)
 	if err != nil {
 		panic(err)
 	}
 	m.raw = raw
+	craw, err := storageos.NewProvider().NewReadWriteBucket(m.cdir)
+	if err != nil {
+		panic(err)
+	}
+	m.craw = craw
+	m.taintedCommit = map[int]bool{}
 	m.table = simlock.NewTable(s)
 	m.reg = &registry{m: m, calls: map[string]int{}}
 	thread.SetParallelism(tape.Pick(tp, "par", []int{4, 1, 2}))
@@ -680,6 +918,7 @@ func Run(tp *tape.Tape, env *engine.Env) *engine.Outcome {
 			"put": {"put-err"}, "write": {"write-err", "short-write"}, "close": {"close-err", "rename-err"},
 			"get": {"get-err"}, "stat": {"stat-err"}, "walk": {"walk-err"}, "delete": {"delete-err"},
 			"lock": {"lock-err", "stall"}, "rlock": {"lock-err", "stall"}, "reg.get": {"registry-err", "registry-wrong-content"},
+			"reg.commits": {"registry-err"},
 		}
 		sw.kinds = map[string][]string{}
 		for _, k := range simfs.SortedKeys(all) {
@@ -783,18 +1022,18 @@ func Run(tp *tape.Tape, env *engine.Env) *engine.Outcome {
 
 // recover2 copies the live directory and runs the recovery oracles on the copy.
 func (m *csim) recover2(when string) {
-	st, err := simfs.DirState(m.dir)
+	st, err := simfs.DirState(m.root)
 	if err != nil {
 		return
 	}
 	h := simfs.StateHash(st)
-	if _, seen := m.crashStates[h]; seen && len(m.tainted) == 0 {
+	if _, seen := m.crashStates[h]; seen && len(m.tainted) == 0 && len(m.taintedCommit) == 0 {
 		return
 	}
 	m.crashStates[h] = struct{}{}
 	m.snapSeq++
 	copyDir := filepath.Join(m.env.Scratch, fmt.Sprintf("snap%d", m.snapSeq))
-	if err := simfs.CopyDir(m.dir, copyDir); err != nil {
+	if err := simfs.CopyDir(m.root, copyDir); err != nil {
 		panic(err)
 	}
 	defer os.RemoveAll(copyDir)
